@@ -7,6 +7,8 @@ import (
 	"io"
 	"math/rand"
 	"strings"
+	"sync"
+	"sync/atomic"
 	"testing/iotest"
 	"time"
 
@@ -31,6 +33,7 @@ func runC14(c *Ctx) {
 	// 3. Streaming machine: exhaustive small model + trace validation.
 	c14StreamMC(c)
 	c14StreamTraces(c)
+	c14Concurrent(c)
 	c.finish()
 }
 
@@ -151,6 +154,37 @@ func c14Transitions(c *Ctx, T []int) {
 	c.Cov["real_transitions_checked"] = n
 	c.Cov["real_transition_mismatches"] = bad
 	c.sample(map[string]interface{}{"kind": "transition", "state": 0xBEEF, "byte": 0x42, "expected": (0xBEEF >> 8) ^ T[(0xBEEF&0xFF)^0x42]})
+}
+
+// c14Concurrent: Checksum is a function of its argument, also when several
+// goroutines call it at once on their own data (the library itself calls it
+// from Encode and Header.MarshalBinary).
+func c14Concurrent(c *Ctx) {
+	var wg sync.WaitGroup
+	var bad int64
+	var first atomic.Value
+	n := c.pick(60000, 600000)
+	for g := 0; g < 8; g++ {
+		wg.Add(1)
+		go func(g int) {
+			defer wg.Done()
+			rng := rand.New(rand.NewSource(c.Seed*31 + int64(g)))
+			d := make([]byte, 3+g)
+			for i := 0; i < n; i++ {
+				rng.Read(d)
+				if got, want := dyncrc16.Checksum(d), crc16(d); got != want {
+					if atomic.AddInt64(&bad, 1) == 1 {
+						first.Store(fmt.Sprintf("Checksum(%v) = %#04x, CRC-16/ARC is %#04x", d, got, want))
+					}
+				}
+			}
+		}(g)
+	}
+	wg.Wait()
+	c.Cov["concurrent_checksum_calls"] = 8 * n
+	if bad > 0 {
+		c.report("crc16-checksum-concurrent", fmt.Sprintf("Checksum is not a function of its argument when goroutines call it at the same time: %d wrong sums, first: %v", bad, first.Load()), nil)
+	}
 }
 
 func c14StreamMC(c *Ctx) {
